@@ -20,6 +20,26 @@ add("C26", "codec", "exploration",
     "not of the continuation-pattern shape) are not covered. Trusted: the harness reference evaluator.",
     "DESIGN.md section 5 C26")
 
+CHAIN_NOTE = ("Environment is the harness node simulator on mockcore's JSON-RPC; histories are bounded (fixed setup prefix, "
+              "L enumerated blocks, <=K deviations over the stated alphabet); values outside the alphabet are not covered. "
+              "Trusted: the independent reference model in harness/src/refmodel and the raw-table decoder in harness/src/idx.rs.")
+add("C01", "chain", "model_checking",
+    "stateless deviation-bounded exhaustive exploration of block histories on the real Index, lock-step BIP reference model",
+    "Every history with <=K deviations over the sat-suite alphabet (17 transaction templates x 9 coinbase shapes, 2 slots + coinbase "
+    "per block) is executed on the real Index::update through the node simulator; after every block Index::list of every unspent "
+    "output and of the lost-sats pseudo-output must equal the ranges produced by an independent implementation of the BIP algorithm.",
+    CHAIN_NOTE, "DESIGN.md sections 4 (E1) and 5 C01")
+add("C02", "chain", "model_checking",
+    "stateless deviation-bounded exhaustive exploration of block histories, whole-index partition audit on every reached state",
+    "Same executions as C01; on every reached state the ranges of all outputs are audited to partition exactly the mined sats minus "
+    "destroyed ones, to add up to each output's value, and find / find_range / rare-sat table are probed at every range boundary.",
+    CHAIN_NOTE, "DESIGN.md sections 4 (E1) and 5 C02")
+add("C17", "chain", "model_checking",
+    "stateless deviation-bounded exhaustive exploration of block histories, address-index audit against the reference UTXO set",
+    "Same executions as C01 with --index-addresses; on every reached state the script->outpoint multimap and get_address_info must "
+    "equal the reference unspent set per script and every stored script/value must equal the creating transaction's.",
+    CHAIN_NOTE, "DESIGN.md sections 4 (E1) and 5 C17")
+
 NOT_YET = "check not built yet in this round (see DESIGN.md build order); not claimed"
 
 def main():
